@@ -77,6 +77,9 @@ def eval_reformat(case):
             elif st_[0] == "remove":
                 t.remove_columns(list(st_[1]))
                 info.add("remove_columns")
+            elif st_[0] == "limits":
+                t.fmt.set_limits(tuple(st_[1]))         # the format object's own method
+                info.add("set_limits_on_the_format_object")
             else:
                 str(t.ch_text(no_color=not st_[1]))
                 info.add("printed_in_between")
